@@ -264,8 +264,17 @@ def run(ctx):
                         ctx.check(nn, "K5.limit-from-clamped-start", key_sl, "substr adds the length to the start offset %s before clamping it into the string: with a start before the string the slice ends too early" % show_expr(es)[:120],
                                   where=xb.where(bi), fn=xb.key, nontrivial=True)
         ctx.count("start+length additions in substr (%s)" % cfg, n_sl)
-        ints = [s for s in su.calls_path(r"^serde_json::Number::as_i64$")]
-        ctx.check(len(ints) >= 2, "K2.integer-operands", "start and length are read with as_i64 (%s)" % cfg, "%d as_i64 reads" % len(ints), where=sb.where(), fn=sb.key)
+        # the integer reading of a JSON number: Number::as_i64, or Value::as_i64 (by definition `Number(n) => n.as_i64(),
+        # _ => None` — the same reading with the kind test folded in); an operand that is (also) read through another
+        # numeric accessor is read and wrong
+        ints = [s for s in su.calls_path(r"^serde_json::(Number|Value)::as_i64$")]
+        others = []
+        for s_ in su.calls_path(r"^serde_json::(Number|Value)::as_(u64|f64|u128|i128)$"):
+            e_ = s_.body.xtrace(s_.term["args"][0])
+            for n_ in (1, 2):
+                if reads_operand(e_, n_):
+                    others.append("operand %d through %s" % (n_, callee_path(s_.term).rsplit("::", 1)[1]))
+        ctx.check(len(ints) >= 2 and not others, "K2.integer-operands", "start and length are read with as_i64 (%s)" % cfg, "%d as_i64 reads%s" % (len(ints), ("; " + ", ".join(sorted(set(others)))) if others else ""), where=sb.where(), fn=sb.key)
 
         # ---------------- cat
         cb, ce = roles.fn_of("cat")
